@@ -64,6 +64,11 @@ class Phys:
     def unlock(self):
         self.cx.require(self.held is not None, "physical lock released while not held")
         self.held = None
+        self.nrel = getattr(self, "nrel", 0) + 1
+        if self.cx.choose("release_fails%d" % self.nrel, 0, 1):
+            # somebody broke the lock in the meantime: the release reports it, the lock is gone either way
+            self.log.append("release_failed")
+            raise self.cx.real("breezy.errors").LockBroken(self)
         self.log.append("release")
 
     def break_lock(self):
@@ -95,7 +100,7 @@ def _one_op(cx, obj, E):
             obj.lock_write(token=token)
         else:
             obj.unlock()
-    except (E.LockContention, E.TokenMismatch, E.ReadOnlyError, E.LockNotHeld) as e:
+    except (E.LockContention, E.TokenMismatch, E.ReadOnlyError, E.LockNotHeld, E.LockBroken) as e:
         exc = type(e).__name__
     return op, token, exc
 
@@ -111,6 +116,16 @@ def _check_step(cx, pre_mode, pre_count, mode, count, phys, op, token, exc):
         cx.require(count >= 1, "locked with zero count")
         cx.require(phys.held == mode, "physical lock %r does not match logical mode %r" % (phys.held, mode))
     first = pre_mode is None
+    if exc == "LockBroken":
+        # the final release found the physical lock broken: the object must end fully unlocked (mode, count and
+        # everything derived from them), so that a later lock acquires the physical lock again
+        cx.require(op == "unlock" and cx.truth(pre_count == 1), "LockBroken from an operation that does not release")
+        cx.require(mode is None and cx.truth(count == 0), "a failed final release left the object half locked "
+                                                          "(mode %r, count %r)" % (mode, count))
+        cx.require(phys.log == ["release_failed"], "physical calls %r" % (phys.log,))
+        cx.cover("release_failed")
+        cx.observe("res", (op, token, exc, mode, count, list(phys.log)))
+        return
     if exc is not None:
         cx.require(cx.truth(count == pre_count) and mode == pre_mode, "failed %s changed the lock state" % op)
         cx.require(phys.log == [], "failed %s touched the physical lock: %r" % (op, phys.log))
@@ -320,7 +335,7 @@ def ob_sequences(cx):
         exc = None
         try:
             getattr(obj, op)()
-        except (E.ReadOnlyError, E.LockNotHeld) as e:
+        except (E.ReadOnlyError, E.LockNotHeld, E.LockBroken) as e:
             exc = type(e).__name__
         calls = phys.log[before:]
         if op == "unlock":
@@ -330,7 +345,12 @@ def ob_sequences(cx):
                 count -= 1
                 if count == 0:
                     mode = None
-                cx.require(exc is None and calls == (["release"] if count == 0 else []), "step %d: unlock" % i)
+                if calls == ["release_failed"]:
+                    # the physical lock had been broken: reported, and the object is unlocked all the same
+                    cx.require(exc == "LockBroken" and count == 0, "step %d: failed release" % i)
+                    cx.cover("release_failed")
+                else:
+                    cx.require(exc is None and calls == (["release"] if count == 0 else []), "step %d: unlock" % i)
         elif op == "lock_write" and mode == "r":
             cx.require(exc == "ReadOnlyError" and calls == [], "step %d: write lock while read-locked" % i)
         else:
